@@ -236,6 +236,14 @@ class MetaEngine:
                 return ("call", nm) + tuple(ev(a, st) for a in e["args"])
             if k == "Block" and e.get("expr") is not None and (not e.get("stmts") or e.get("projected")):
                 return ev(e["expr"], st)
+            if k == "Block" and e.get("expr") is not None and all(
+                    s_.get("k") == "Let" and s_["pat"].get("k") == "PBind" and "init" in s_ and
+                    not is_meta_ty(facts.strs[s_["pat"]["t"]]) for s_ in e["stmts"]):
+                # a value block with plain local lets: { let q = ..; (a / q, b) }
+                st2 = {"a": st["a"], "o": st["o"], "v": dict(st["v"])}
+                for s_ in e["stmts"]:
+                    st2["v"][s_["pat"]["lid"]] = ev(s_["init"], st2)
+                return ev(e["expr"], st2)
             if k == "Tup":
                 return ("tup",) + tuple(ev(x, st) for x in e["es"])
             if k == "If" and e.get("el") is not None:
